@@ -58,6 +58,12 @@ MUTANTS = {
         ('emsg-delta-abs', 'dashlive/server/events/repeating_event_base.py', 'time_delta = presentation_time - seg_start', 'time_delta = presentation_time'),
         ('emsg-seg-end-le', 'dashlive/server/events/repeating_event_base.py', '        while presentation_time < seg_end:', '        while presentation_time <= seg_end:'),
         ('emsg-skip-id', 'dashlive/server/events/repeating_event_base.py', "            retval.append(EventMessageBox(**kwargs))\n            event_id += 1", "            retval.append(EventMessageBox(**kwargs))\n            event_id += 2"),
+        ('mc-pt', 'dashlive/server/events/repeating_event_base.py', '                presentation_time += self.interval\n        return stream', '                presentation_time += self.duration\n        return stream'),
+        ('mc-id', 'dashlive/server/events/repeating_event_base.py', "                    'id': idx,\n", "                    'id': idx + 1,\n"),
+        ('bs-pts-mask', 'dashlive/server/events/scte35_events.py', '        pts &= 0x1FFFFFFFF  # PTS field is 33 bits\n', '        pts &= 0xFFFFFFFF  # PTS field is 33 bits\n'),
+        ('bs-duration', 'dashlive/server/events/scte35_events.py', '        duration = self.duration * MPEG_TIMEBASE // self.timescale', '        duration = self.duration * self.timescale // MPEG_TIMEBASE'),
+        ('bs-auto-return', 'dashlive/server/events/scte35_events.py', '        auto_return = (event_id & 1) == 0', '        auto_return = (event_id & 1) == 1'),
+        ('bs-avail', 'dashlive/server/events/scte35_events.py', '            avail_num = 1 + (event_id // 2)', '            avail_num = 2 + (event_id // 2)'),
         ('emsg-start-floor', 'dashlive/server/events/repeating_event_base.py', 'seg_end = (seg_end * self.timescale) // representation.timescale', 'seg_end = (seg_end * self.timescale) // representation.timescale + 1'),
     ],
     'C01': [
